@@ -8,6 +8,10 @@ BUILT = {
          "independent EM byte parser + row model; recovery obligation after faults", "4/C01"),
 }
 PLANNED = {}
+BUILT["C20"] = ("thickness pairing under simulated worker threads: the numba prange kernel's Python source is driven by 1..4 baton-passing "
+                "workers with seeded iteration assignment, line-level pre-emption (sys.settrace) and stalls; measure_thickness_cpu is run "
+                "on the original, rigidly moved, voxel-rescaled and role-swapped geometry; brute-force candidate sets + greedy-matching "
+                "invariants; compiled kernel single-threaded as cross-check; logical clock", "4/C20")
 BUILT["C14"] = ("map rotation/placement/windowing/symmetrisation under a hostile allocator: every operation runs twice per step under two "
                 "legal np.empty behaviours (zero, NaN, 1e30, -7, stale previous result) and must give identical results that satisfy the "
                 "active-rotation voxel model (all 24 cube rotations per box), blob-moves-to-Rv, inverse restores, stamping, window and "
